@@ -749,7 +749,7 @@ def _orientation_of(fn, expr, depth=0):
             kinds.add("realised")
         if isinstance(x, ast.Call) and isinstance(x.func, ast.Attribute) and x.func.attr in ("get_seq", "iter_seqs") and norm(x.func.value) == "self":
             kinds.add("realised")
-    if depth < 3:
+    if depth < 6:
         for nm in {x.id for x in ast.walk(expr) if isinstance(x, ast.Name) and isinstance(x.ctx, ast.Load)}:
             for st in walk_no_nested(fn):
                 if isinstance(st, ast.Assign) and any(isinstance(t, ast.Name) and t.id == nm for t in st.targets):
@@ -787,7 +787,84 @@ def r03_17(chk):
     chk.floor("R03.17", 3, "degap, get_translation, trim_stop_codons, pad_seqs")
 
 
+def _eval_gap_expr(e, env, defs, depth=0):
+    """value of a boolean numpy expression over the per-position truth values in env"""
+    if isinstance(e, ast.Name):
+        if e.id in env:
+            return env[e.id]
+        if e.id in defs and depth < 5:
+            return _eval_gap_expr(defs[e.id], env, defs, depth + 1)
+        raise AnalysisError(f"name {e.id} not understood in the gap filter")
+    if isinstance(e, ast.Call):
+        f = (call_name(e) or "").split(".")[-1]
+        a = e.args
+        if f == "logical_and":
+            return _eval_gap_expr(a[0], env, defs, depth) and _eval_gap_expr(a[1], env, defs, depth)
+        if f == "logical_or":
+            return _eval_gap_expr(a[0], env, defs, depth) or _eval_gap_expr(a[1], env, defs, depth)
+        if f == "logical_xor":
+            return _eval_gap_expr(a[0], env, defs, depth) != _eval_gap_expr(a[1], env, defs, depth)
+        if f == "logical_not":
+            return not _eval_gap_expr(a[0], env, defs, depth)
+        if f in ("array", "asarray") and a:
+            return _eval_gap_expr(a[0], env, defs, depth)
+        if isinstance(e.func, ast.Attribute) and e.func.attr in ("astype", "copy"):
+            return _eval_gap_expr(e.func.value, env, defs, depth)
+    if isinstance(e, ast.Compare) and len(e.ops) == 1 and isinstance(e.ops[0], (ast.NotEq, ast.Eq)):
+        l, r_ = _eval_gap_expr(e.left, env, defs, depth), _eval_gap_expr(e.comparators[0], env, defs, depth)
+        return (l != r_) if isinstance(e.ops[0], ast.NotEq) else (l == r_)
+    if isinstance(e, ast.BinOp) and isinstance(e.op, (ast.BitAnd, ast.BitOr, ast.BitXor)):
+        l, r_ = _eval_gap_expr(e.left, env, defs, depth), _eval_gap_expr(e.right, env, defs, depth)
+        return (l and r_) if isinstance(e.op, ast.BitAnd) else (l or r_) if isinstance(e.op, ast.BitOr) else (l != r_)
+    if isinstance(e, ast.UnaryOp) and isinstance(e.op, (ast.Invert, ast.Not)):
+        return not _eval_gap_expr(e.operand, env, defs, depth)
+    raise AnalysisError(f"expression {norm(e)[:50]} not understood in the gap filter")
+
+
+def r03_18(chk):
+    chk.rule("R03.18", "matching_ref's gap filter tests runs per DIRECTION: a run of `gap_run` positions gapped in the row but not in the reference, or gapped in the reference but not in the row. Each array whose run of ones is searched is therefore true for exactly one of the two kinds of mismatch (truth table over (row gapped, reference gapped)), and the two kinds are both covered -- a single test on `row != reference` also counts a short deletion that touches a short insertion as one long run and drops rows the string rule keeps")
+    m = chk.repo.module("core/alignment.py")
+    outer = m.func("make_gap_filter")
+    inner = [f for f in ast.walk(outer) if isinstance(f, ast.FunctionDef) and f is not outer]
+    if not inner:
+        raise AnalysisError("make_gap_filter: inner predicate not found")
+    fn = inner[0]
+    defs = {st.targets[0].id: st.value for st in ast.walk(fn) if isinstance(st, ast.Assign) and isinstance(st.targets[0], ast.Name)}
+    seqv = next((n_ for n_, v in defs.items() if "gap_vector" in norm(v)), None)
+    tmpl = next((st.targets[0].id for st in walk_no_nested(outer) if isinstance(st, ast.Assign) and isinstance(st.targets[0], ast.Name) and "gap_vector" in norm(st.value)), None)
+    if not seqv or not tmpl:
+        raise AnalysisError("make_gap_filter: gap vectors not found")
+    runs = []
+    for c in ast.walk(fn):
+        if isinstance(c, ast.Compare) and len(c.ops) == 1 and isinstance(c.ops[0], (ast.In, ast.NotIn)) and "gap_run" in norm(c.left):
+            x = c.comparators[0]
+            # X.astype(uint8).tobytes()
+            while isinstance(x, ast.Call) and isinstance(x.func, ast.Attribute) and x.func.attr in ("tobytes", "astype", "tostring"):
+                x = x.func.value
+            runs.append((c, x))
+    if not runs:
+        raise AnalysisError("make_gap_filter: run tests not found")
+    covered = set()
+    bad = None
+    for c, x in runs:
+        true_rows = set()
+        for sg in (False, True):
+            for tg in (False, True):
+                if _eval_gap_expr(x, {seqv: sg, tmpl: tg}, {k_: v for k_, v in defs.items() if k_ != seqv}):
+                    true_rows.add((sg, tg))
+        if len(true_rows) != 1 or not true_rows <= {(True, False), (False, True)}:
+            bad = (c, x, true_rows)
+        covered |= true_rows
+    k = key(m, "make_gap_filter", "run tests are directional")
+    if bad:
+        chk.violation("R03.18", k, m.loc(bad[0]), f"the run test on `{norm(bad[1])[:60]}` is true for (row gapped, reference gapped) in {sorted(bad[2])}: runs of different kinds of mismatch are added up (reference AC--GGTTAC, row ACGT--TTAC, gap_run=3 drops the row although neither run reaches 3)")
+    else:
+        chk.decide(covered == {(True, False), (False, True)}, "R03.18", k, m.loc(fn), f"{len(runs)} directional run tests covering both kinds", f"only {sorted(covered)} is tested for runs")
+    chk.floor("R03.18", 1, "make_gap_filter")
+
+
 def run(chk):
+    r03_18(chk)
     r03_17(chk)
     r03_16(chk)
     # a row of an annotatable alignment is a sequence view: the raw-view discipline of C01 (R01.1) is what keeps
